@@ -56,6 +56,9 @@ def ring_scenarios(tier, variant='plain', want=None, wide=False):
                     else:
                         route, pat = variant.split(':')
                         out.append(scen.build(r, 'r%d-%d-%s-%s%s' % (n, k, route, pat, sfx), route=route, poison=pat, mode=mode))
+    if wide and variant == 'plain':
+        for n in (6, 7, 8):
+            out += [sc for sc in scen.wide_drains(n) if not want or want(set(sc['tags']), {'evs': [{'op': 'drain'}]})]
     return out, stats
 
 
@@ -451,8 +454,8 @@ def check_c04(tier, t0):
                ['back:00', 'back:ff', 'back:5a', 'back:stale', 'back:live', 'front:00', 'front:ff', 'front:5a', 'front:stale', 'front:live']
     groups = {}
     for vi, v in enumerate(variants):
-        # the scripts with provided Iterator methods run under the first garbage variant only in the quick tier
-        w2 = want if (vi == 0 or tier != 'quick') else (lambda t, r: want(t, r) and 'provided' not in t)
+        # the scripts with provided Iterator methods run under the first garbage variant only
+        w2 = want if vi == 0 else (lambda t, r: want(t, r) and 'provided' not in t)
         scs, stats = ring_scenarios(tier, v, w2)
         u = run_unit('ring-C04-%s-%s' % (tier, v), scs)
         units.append(u)
